@@ -420,7 +420,13 @@ class Kernel:
             # an opaque guard: both branches are explored under a fresh boolean; positions after it become unknown for
             # the containers they append to
             if not self.symbolic:
-                raise Refused("opaque guard in concrete mode (line %d): %s" % (st.lineno, c.why))
+                # concrete mode cannot decide the guard: allowed only when the branches append nothing but opaque vertices
+                for sub in ast.walk(st):
+                    if isinstance(sub, ast.Call) and isinstance(sub.func, ast.Attribute) and sub.func.attr == "append":
+                        if self._container_of(sub.func.value) != "vertices":
+                            raise Refused("opaque guard in concrete mode (line %d): %s" % (st.lineno, c.why))
+                self.counts["vertices"] = None
+                return
             self.fresh += 1
             c = z3.Bool("opaque_guard!%d" % self.fresh)
             touched = set()
